@@ -52,3 +52,65 @@ def run(ck, prog):
                                f"so a single-class labelling divides by a zero entropy instead of scoring 1",
                          path=[caller.path, callee.path], ordinal=i)
     ck.floor(rule, 2)
+
+
+def centred_sums(ck, prog):
+    """R^2: both sums of squares accumulate squared *differences* (y - mean, y - prediction), never raw squares:
+    'real targets of any scale' - the one-pass sum(y^2) - n*mean^2 form cancels catastrophically for a large offset"""
+    from sa.prov import Resolver, render, subterms
+    rule, inst = "E2f-centred", "R2::get_score accumulates squared differences"
+    try:
+        b = prog.one(r"^metrics::r2::R2::get_score$")
+    except AnchorError as e:
+        ck.violation(rule, inst, "R2::get_score", "", expected="anchor exists", found=f"anchor vanished: {e}")
+        return
+    res = Resolver(b)
+    is_elem = lambda s: (s[0] == "call" and s[1].endswith("BaseVector::get")) or s[0] == "idx"
+    n = 0
+    bodies = [b] + prog.closures_of.get(b.path, [])
+    for bd in bodies:
+        rs = Resolver(bd)
+        for bb, t in bd.calls():
+            f = t.get("f")
+            if not (f and f["path"] == "std::ops::AddAssign::add_assign"):
+                continue
+            v = rs.operand(t["args"][1])
+            factors = None
+            if v[0] == "call" and v[1] == "std::ops::Mul::mul":
+                factors = list(v[2])
+            elif v[0] == "call" and v[1].endswith(("::powi", "::powf", "::square")):
+                factors = [v[2][0]]
+            if factors is None:
+                continue
+            n += 1
+            bad = [render(F)[:60] for F in factors if not (F[0] == "call" and F[1] == "std::ops::Sub::sub" and any(is_elem(s) for s in subterms(F)))]
+            if bad:
+                ck.violation(rule, inst, bd.path, bd.where(bb), ordinal=n, expected="each accumulated square is the square of a difference",
+                             found=f"accumulates a raw product: {bad}")
+            else:
+                ck.ok(rule, inst, bd.path, bd.where(bb), render(v)[:100])
+    if n < 2:
+        # fold / iterator forms: look at closures' return values
+        for bd in bodies[1:]:
+            r = Resolver(bd).local(0)
+            for s in subterms(r):
+                if s[0] == "call" and (s[1] == "std::ops::Mul::mul" or s[1].endswith(("::powi", "::square"))):
+                    fs = list(s[2]) if s[1] == "std::ops::Mul::mul" else [s[2][0]]
+                    if all(F[0] == "call" and F[1] == "std::ops::Sub::sub" for F in fs):
+                        n += 1
+                        ck.ok(rule, inst, bd.path, f"{bd.loc[0]}:{bd.loc[1]}", render(s)[:100])
+                    elif any(F[0] == "arg" or F[0] == "field" for F in fs):
+                        n += 1
+                        ck.violation(rule, inst, bd.path, f"{bd.loc[0]}:{bd.loc[1]}", ordinal=n, expected="each accumulated square is the square of a difference",
+                                     found=f"accumulates a raw product: {render(s)[:80]}")
+    if n < 2:
+        ck.violation(rule, inst, b.path, f"{b.loc[0]}:{b.loc[1]}", expected="two sums of squared differences (total, residual)", found=f"{n} recognised")
+
+
+_run_c15 = run
+
+
+def run(ck, prog):
+    _run_c15(ck, prog)
+    centred_sums(ck, prog)
+    ck.floor("E2f-centred", 2)
